@@ -1,7 +1,7 @@
 SPECIFICATION MCSpec
 CONSTANTS
   BufSize = 3
-  MaxStream = 8
+  MaxStream = 10
   MaxCached = 2
   Modes = {"rw", "sp"}
   Relays = {0, 1}
